@@ -129,6 +129,22 @@ def records_contract(rl, out):
                                        out.carr[k][j] == If(Select(Select(rl.doms, j), k), Select(Select(rl.vals, j), k), NONEV)))))]
 
 
+def mask_contract(t, n, marr, out):
+    """table[list of booleans] for a rectangular table (wf(t, n)) and one mask entry per row: named clauses (name, formula).
+    With the laws of count_true (count_lemmas) this says: exactly the rows whose entry is true, in order, with all columns."""
+    M = nrows(t, n)
+    i = Int('i!mc')
+    c = Const('c!mc', Key)
+    total = CNT(marr, M)
+    return [ForAll([c], Select(out.dom, c) == Select(t.dom, c)),
+            wf(out, total),
+            ForAll([i, c], Implies(And(0 <= i, i < M, Select(marr, i) != 0, Select(t.dom, c)),
+                                   And(0 <= CNT(marr, i), CNT(marr, i) < total, out.carr[c][CNT(marr, i)] == t.carr[c][i])))]
+
+
+MASK_CLAUSES = ('keeps_all_columns', 'rectangular_with_one_row_per_true_entry', 'row_of_a_true_entry_is_kept_at_its_rank')
+
+
 def empty_with_columns_contract(dom, out):
     """dictable([], columns): exactly these columns, none with a row"""
     k = Const('k!ec', Key)
